@@ -46,6 +46,7 @@ type Scn struct {
 	Outage     [2]int `json:"outage_ms"` // active-check scenarios: upstream 0 refuses during [from,to)
 	MaxFailing int    `json:"max_failing_dials"`
 	Peers      int    `json:"peers_of_upstream0,omitempty"` // 2: upstream 0 dials two addresses (every connection goes to both)
+	SlowFail   bool   `json:"slow_fail,omitempty"`          // a failing dial may also fail only after 300 ms (e.g. a handshake that times out), so that dials to one peer overlap
 }
 
 type vclock struct{}
@@ -55,6 +56,7 @@ func (vclock) NewTicker(d time.Duration) *time.Ticker { return time.NewTicker(d)
 
 type dialRec struct {
 	At     int64
+	DoneAt int64 // when the dial returned (later than At for a slow failure)
 	Up     int
 	Peer   int
 	OK     bool
@@ -115,19 +117,31 @@ func execute(x *explore.Exec, sc *Scn) *result {
 			u, tg := tg.up, tg
 			nw.Handle(tg.addr, func(client net.Addr) (net.Conn, error) {
 				health := nw.WithTimeout
-				ok := true
+				ok, slow := true, false
 				if sc.ActiveMS > 0 {
 					t := vsched.NowNS() / 1e6
 					ok = !(u == 0 && t >= int64(sc.Outage[0]) && t < int64(sc.Outage[1]))
 				} else if failing < sc.MaxFailing {
-					if x.Choose(explore.KFault, 2) == 1 {
+					n := 2
+					if sc.SlowFail {
+						n = 3
+					}
+					if c := x.Choose(explore.KFault, n); c > 0 {
 						ok = false
 						failing++
+						slow = c == 2
 					}
 				}
 				res.mu.Lock()
-				res.dials = append(res.dials, dialRec{At: vsched.NowNS(), Up: u, Peer: tg.peer, OK: ok, Health: health})
+				res.dials = append(res.dials, dialRec{At: vsched.NowNS(), DoneAt: vsched.NowNS(), Up: u, Peer: tg.peer, OK: ok, Health: health})
+				idx := len(res.dials) - 1
 				res.mu.Unlock()
+				if slow {
+					vtime.Sleep(300 * time.Millisecond)
+					res.mu.Lock()
+					res.dials[idx].DoneAt = vsched.NowNS()
+					res.mu.Unlock()
+				}
 				if !ok {
 					return nil, vnet.ErrRefused
 				}
@@ -312,6 +326,7 @@ func check(x *explore.Exec, sc *Scn, r *result) {
 	interval := int64(sc.TryIntMS) * 1e6
 	tryDur := int64(sc.TryDurMS) * 1e6
 	attempts := make([]int, len(r.conns))
+	dialTime := make([]int64, len(r.conns)) // time connection i spent inside slowly failing dials
 	served := make([]int, len(r.conns))
 	for i := range served {
 		served[i] = -1
@@ -398,7 +413,8 @@ func check(x *explore.Exec, sc *Scn, r *result) {
 			}
 			opens[d.Up] = append(opens[d.Up], open{d.At, to})
 		} else {
-			fails[d.Up] = append(fails[d.Up], d.At)
+			fails[d.Up] = append(fails[d.Up], d.DoneAt) // a failure is remembered from the moment the dial returns
+			dialTime[ci] += d.DoneAt - d.At
 		}
 	}
 	// every connection: either served, or failed at the first retry check at/after try_duration
@@ -425,6 +441,7 @@ func check(x *explore.Exec, sc *Scn, r *result) {
 				break
 			}
 		}
+		giveUp += dialTime[i]
 		if el := c.ReturnAt - c.Arrive; el < giveUp || el > giveUp+1000 {
 			x.Fail("retry-schedule", "connection %d failed %.3fs after it arrived; with try_duration %dms and try_interval %dms it should give up after %.3fs; %s", i, float64(el)/1e9, sc.TryDurMS, sc.TryIntMS, float64(giveUp)/1e9, desc())
 		}
@@ -545,6 +562,15 @@ func scenarios(tier string, yield func(any) bool) {
 			}
 		}
 	}
+	// dials that fail only after 300 ms, so that two dials to one peer are in flight together and
+	// fail at different times (no retries: one attempt per connection)
+	for _, mf := range []int{1, 2} {
+		for _, arr := range [][]int{{0, 130, 2200}, {0, 130, 270, 2260}, {0, 130, 2200, 2350}} {
+			if !yield(&Scn{FailDurMS: 2000, MaxFails: mf, TryDurMS: 0, TryIntMS: 250, Arrivals: arr, MaxFailing: 3, SlowFail: true}) {
+				return
+			}
+		}
+	}
 	// upstream 0 with two dial addresses: every vector of failing dials, with and without a limit
 	for _, mc := range []int{0, 1, 2} {
 		for _, arr := range [][]int{{0}, {0, 100}, {0, 100, 200}} {
@@ -592,7 +618,7 @@ func main() {
 	runner.Main(&runner.Harness{
 		ID:    "C11",
 		Level: "model_checking",
-		Rule:  "proxy handler with two single-peer upstreams (and a family in which upstream 0 has two dial addresses) and the 'first' policy: settings fail_duration {0,2 s} x max_fails {0,1,2} x try_duration {0,1 s} x try_interval {250,400 ms} x 6 arrival patterns (1-5 connections) with EVERY success/failure vector of the dials (up to 3, thorough 5, failing dials); max_connections / unhealthy_connection_count {1,2} with overlapping 1 s connections; active checks (1 s) with scripted outages, alone and together with passive failure tracking (fail_duration 0.7/2 s, max_fails 1/2); x every interleaving within the delay budget. A reference model (failure timestamps per peer, open connections per upstream, active-check verdicts) replays the same dial outcomes and predicts every dial's target and every connection's fate and give-up time",
+		Rule:  "proxy handler with two single-peer upstreams (and a family in which upstream 0 has two dial addresses) and the 'first' policy: settings fail_duration {0,2 s} x max_fails {0,1,2} x try_duration {0,1 s} x try_interval {250,400 ms} x 6 arrival patterns (1-5 connections) with EVERY success/failure vector of the dials (up to 3, thorough 5, failing dials; in one family a failing dial may also fail only after 300 ms, so that dials to one peer overlap); max_connections / unhealthy_connection_count {1,2} with overlapping 1 s connections; active checks (1 s) with scripted outages, alone and together with passive failure tracking (fail_duration 0.7/2 s, max_fails 1/2); x every interleaving within the delay budget. A reference model (failure timestamps per peer, open connections per upstream, active-check verdicts) replays the same dial outcomes and predicts every dial's target and every connection's fate and give-up time",
 		Assumptions: []string{
 			"arrival instants are chosen so that no dial coincides with a failure's expiry instant",
 			"timing clauses are only asserted on executions without timer deviations",
